@@ -76,7 +76,8 @@ fn gen(ctx: &GenCtx, i: u64, local: bool) -> Option<Run> {
     let layer = ALL_LAYERS[((i / 4) % 3) as usize];
     let mut rb = RunBuilder::new(prop, "deliver-clean", ctx.verif_seed, i);
     let now = gen_now(&mut r);
-    let key = rb.key(key_for(proto, &mut r));
+    let rb_key_spec = key_for(proto, &mut r);
+    let key = rb.key(rb_key_spec.clone());
     let big_ok = layer != Layer::Core || r.chance(1, 2);
     let mlen = match r.below(24) {
         0 if big_ok => *r.pick(&[4095usize, 4096, 4097, 65_535, 65_536, 65_537, 100_000]),
@@ -113,7 +114,27 @@ fn gen(ctx: &GenCtx, i: u64, local: bool) -> Option<Run> {
         }
     }
     let n = toks.len().max(1 + r.usize(3));
+    // one run in four: the long-lived verifier first has to refuse something (a torn copy, text of another
+    // protocol, the token under another key); what it is given afterwards must still round-trip
+    let refuse_first = r.chance(1, 4);
     for k in 0..n {
+        if refuse_first && k < 2 {
+            match r.below(3) {
+                0 => {
+                    let m = rb.fault(toks[0].msg, FaultKind::Truncate { n: 12 + r.usize(30) }, None);
+                    rb.deliver(m, v, toks[0].issued_at + 1);
+                }
+                1 => {
+                    let m = rb.msg();
+                    rb.push(Op::Literal { out: m, text: format!("{}AAAA", proto.header()) });
+                    rb.deliver(m, v, toks[0].issued_at + 1);
+                }
+                _ => {
+                    let k2 = rb.key(other_key_for(proto, &rb_key_spec, &mut r));
+                    rb.push(Op::Deliver { msg: toks[0].msg, to: v, now_ns: Ns(toks[0].issued_at + 1), ticks: vec![], twin: false, control: None, key: Some(k2) });
+                }
+            }
+        }
         let t = &toks[k % toks.len()];
         // delivery delay: inside the default one-hour lifetime (strictly), sometimes at/over the edges
         let d = match r.below(12) {
